@@ -145,6 +145,8 @@ m("c12-max-size-check-dropped", ["C12"], GEN, "    if max_size > p:", "    if ma
 
 # ---- C20
 NO = "sempler/noise.py"
+m("c20-laplace-scale-half-percent", ["C20"], NO, "np.random.laplace(mean, scale, n)", "np.random.laplace(mean, scale * 1.005, n)", note="variance 1 % high: pooled family")
+m("c20-uniform-skewed", ["C20"], NO, "np.random.uniform(lo, hi, n)", "(lo + (hi - lo) * np.random.uniform(0, 1, n) ** 1.01)", note="a slightly skewed law with nearly the right mean and variance")
 m("c20-normal-var-as-sd", ["C20", "C04"], NO, "np.random.normal(mean, var**0.5, n)", "np.random.normal(mean, var, n)")
 m("c20-uniform-lo-plus-hi", ["C20"], NO, "np.random.uniform(lo, hi, n)", "np.random.uniform(lo, lo + hi, n)")
 m("c20-laplace-half-scale", ["C20"], NO, "np.random.laplace(mean, scale, n)", "np.random.laplace(mean, scale / 2, n)")
@@ -156,6 +158,10 @@ m("c20-normal-tiled", ["C20"], NO, "    return lambda n: np.random.normal(mean, 
 
 # ---- C04
 m("c04-nd-half-covariance", ["C04"], ND, "        return np.random.multivariate_normal(self.mean, self.covariance, size=n)", "        return np.random.multivariate_normal(self.mean, self.covariance / 2, size=n)")
+m("c04-nd-variance-1-percent-high", ["C04"], ND, "        return np.random.multivariate_normal(self.mean, self.covariance, size=n)",
+  "        return np.random.multivariate_normal(self.mean, self.covariance * 1.01, size=n)", note="a 1 % error of the variance: only the pooled family sees it in the quick tier")
+m("c04-nd-mean-half-percent-sd", ["C04"], ND, "        return np.random.multivariate_normal(self.mean, self.covariance, size=n)",
+  "        return np.random.multivariate_normal(self.mean + 0.005 * np.sqrt(np.diag(self.covariance)), self.covariance, size=n)", note="bias of 0.5 % of a standard deviation")
 m("c04-nd-diagonal-only", ["C04"], ND, "        return np.random.multivariate_normal(self.mean, self.covariance, size=n)", "        return np.random.multivariate_normal(self.mean, np.diag(np.diag(self.covariance)), size=n)")
 m("c04-nd-tiled-rows", ["C04"], ND, "        return np.random.multivariate_normal(self.mean, self.covariance, size=n)",
   "        return np.resize(np.random.multivariate_normal(self.mean, self.covariance, size=max(1, (n + 1) // 2)), (n, self.p))", note="right law of each row, rows repeated: not i.i.d.")
